@@ -19,7 +19,7 @@ import os
 from . import common
 
 PROPERTY = 'C05'
-LEAN_TARGETS = ['CpProofs.C05', 'drv_c05']
+LEAN_TARGETS = ['CpProofs.C05', 'CpProofs.C05Sink', 'drv_c05']
 DRIVER = 'drv_c05'
 THEOREMS = [
     'CpProofs.C05.C05_refines_cursor',
@@ -34,6 +34,13 @@ THEOREMS = [
     'CpProofs.C05.C05_never_fuel',
     'CpProofs.C05.C05_readline_n_quirk',
     'CpProofs.C05.C05_regression_F5',
+    # sinks and iteration (CpModel.ReaderSink, CpProofs.C05Sink)
+    'CpProofs.C05.readW_spec',
+    'CpProofs.C05.C05_iter_all_lines',
+    'CpProofs.C05.C05X_step',
+    'CpProofs.C05.C05X_exact_in_order',
+    'CpProofs.C05.C05X_never_overreads',
+    'CpProofs.C05.C05X_never_delivers_beyond_maxbytes',
 ]
 LEVEL = 'proof'
 TECHNIQUE = ('Lean 4 proof: refinement of SizedReader (buffer, bytes_read, push-back, socket fragmentation) to a '
@@ -123,20 +130,74 @@ def _norm(case):
     return c, body
 
 
+class Sink:
+    """A write-only sink handed to read(size, fp_out) / read_into_file: keeps everything written to it,
+    whatever happens to the call afterwards."""
+
+    def __init__(self):
+        self.chunks = []
+
+    def write(self, data):
+        self.chunks.append(bytes(data))
+        return len(data)
+
+    def getvalue(self):
+        return b''.join(self.chunks)
+
+
+def _file_content(f):
+    try:
+        f.seek(0)
+        return f.read()
+    except Exception:
+        return None
+
+
 def _do_ops(ent, ops, stop_at_error):
-    """Perform the history on an Entity; returns the list of canonical per-op results."""
+    """Perform the history on an Entity; returns the list of canonical per-op results.
+
+    result = `b:<hex>` (returned bytes) | `l:<hex>/...` (returned lines) | `stop` | `w:<hex>` (what a sink holds
+    after a successful read(n, fp_out) / read_into_file) | `y:<hex>/...` (lines yielded by `for line in body`)
+    | `e<code>[+<hex>]` / `x:<Exception>[+<hex>]` (the call raised; for sink / iteration operations: what
+    the sink had received / the loop had yielded before)."""
     import cherrypy
     outs = []
     for op in ops:
         name, _, arg = op.partition(':')
         n = int(arg) if arg else None
+        partial = None          # () -> bytes delivered by this call although it raised
         try:
             if name == 'read':
                 r = 'b:' + ent.read(n).hex()
             elif name == 'readfp':
-                f = io.BytesIO()
+                f = Sink()
+                partial = f.getvalue
                 ent.read(n, f)
-                r = 'b:' + f.getvalue().hex()
+                r = 'w:' + f.getvalue().hex()
+            elif name == 'rif':
+                f = Sink()
+                partial = f.getvalue
+                ent.read_into_file(f)
+                r = 'w:' + f.getvalue().hex()
+            elif name == 'rifmk':
+                # the default sink: whatever make_file() returns (tempfile.TemporaryFile), recorded
+                made = []
+                mk = ent.make_file
+
+                def recording_make_file():
+                    made.append(mk())
+                    return made[-1]
+                partial = lambda: b''.join(_file_content(x) or b'' for x in made)
+                ent.make_file = recording_make_file
+                try:
+                    ret = ent.read_into_file()
+                finally:
+                    del ent.make_file
+                if not made and ret is not None:
+                    made.append(ret)
+                r = 'w:' + partial().hex()
+                for x in made:
+                    x.close()
             elif name == 'readline':
                 r = 'b:' + ent.readline(n).hex()
             elif name == 'readlines':
@@ -146,14 +207,27 @@ def _do_ops(ent, ops, stop_at_error):
                     r = 'b:' + next(ent).hex()
                 except StopIteration:
                     r = 'stop'
+            elif name == 'iter':
+                got = []
+                partial = lambda: b''.join(got)
+                for line in ent:
+                    got.append(bytes(line))
+                r = 'y:' + '/'.join(x.hex() for x in got)
             else:
                 raise common.HarnessError('unknown op %r' % op)
         except cherrypy.HTTPError as e:
             r = 'e%d' % e.code
+        except common.HarnessError:
+            raise
         except Exception as e:      # anything else is an observable (the property allows only 413)
             r = 'x:' + type(e).__name__
+        if not _is_ok(r) and partial is not None:
+            try:
+                r += '+' + partial().hex()
+            except Exception:
+                r += '+'
         outs.append(r)
-        if stop_at_error and not (r.startswith('b:') or r.startswith('l:') or r == 'stop'):
+        if stop_at_error and not _is_ok(r):
             break
     return outs
 
@@ -191,7 +265,7 @@ def _app(maxbytes, bufsize):
                 outs = _do_ops(body, _JOURNAL['ops'], stop_at_error=True)
                 _JOURNAL['outs'] = outs
                 last = outs[-1] if outs else ''
-                if last == 'e413':
+                if last.startswith('e413'):
                     raise cherrypy.HTTPError(413)
                 return b'ok'
         conf = {'request.body.bufsize': bufsize}
@@ -242,7 +316,16 @@ def run_real(case):
 # oracle: a cursor over body[:declared length], from the property statement
 # ----------------------------------------------------------------------------------------------
 def _is_ok(r):
-    return r.startswith('b:') or r.startswith('l:') or r == 'stop'
+    return r[:2] in ('b:', 'l:', 'w:', 'y:') or r == 'stop'
+
+
+def _split_err(r):
+    """'e413+6162' -> ('e413', b'ab'); 'e413' -> ('e413', b'')"""
+    st, _, part = r.partition('+')
+    try:
+        return st, bytes.fromhex(part)
+    except ValueError:
+        return st, b''
 
 
 def _line(rest):
@@ -267,47 +350,74 @@ def oracle(case, obs):
     if c.get('via') == 'wsgi' and obs.get('fp_type') != 'SizedReader':
         bad.append(('request.body.fp is %r, not the bounded reader' % obs.get('fp_type'), 'not_wrapped'))
     pos = 0                 # cursor
-    delivered = 0
+    delivered = 0           # bytes handed to the application: returned, written to a sink, yielded
     errored = False
+
+    def bound(op):
+        if m is not None and delivered > m:
+            bad.append(('%d bytes delivered to the application (return values, fp_out sinks, yielded lines; '
+                        'last by %s) with maxbytes=%d' % (delivered, op, m), 'maxbytes:delivered_over_limit'))
+            return False
+        return True
+
     for op, r in zip(c['ops'], obs['outs']):
         name, _, arg = op.partition(':')
         n = int(arg) if arg else None
         if not _is_ok(r):
-            if r == 'e413' and (ext_fail or (m is not None and len(avail) > m)):
-                errored = True
-                break       # refused: nothing more is promised about the content
-            bad.append(('%s -> %s although the body (%d bytes) is within the limit %s'
-                        % (op, r, len(avail), m), 'spurious_error:' + r.split(':')[0]))
+            st, part = _split_err(r)
+            delivered += len(part)
+            if not errored:
+                # what a sink received / the iterator yielded before the refusal is still body data, in order
+                if avail[pos:pos + len(part)] != part:
+                    bad.append(('%s raised %s after delivering %r..., which is not the next %d bytes of the body '
+                                '(offset %d: %r...)' % (op, st, part[:24], len(part), pos, avail[pos:pos + 24]),
+                                'order:partial_' + name))
+                if not (st == 'e413' and (ext_fail or (m is not None and len(avail) > m))):
+                    bad.append(('%s -> %s although the body (%d bytes) is within the limit %s'
+                                % (op, st, len(avail), m), 'spurious_error:' + st.split(':')[0]))
             errored = True
-            break
+            if not bound(op):
+                break
+            continue            # refused: nothing more is promised about the content, only the bound
+        if errored:
+            # an application that caught the 413 and goes on reading: still never more than the limit
+            if r[:2] in ('b:', 'w:'):
+                delivered += len(r[2:]) // 2
+            elif r[:2] in ('l:', 'y:'):
+                delivered += sum(len(x) // 2 for x in r[2:].split('/'))
+            if not bound(op):
+                break
+            continue
         rest = avail[pos:]
         if r == 'stop':
             got = b''
             if name != 'next' or rest:
                 bad.append(('%s raised StopIteration with %d bytes left' % (op, len(rest)), 'content:next'))
-        elif r.startswith('l:'):
+        elif r[:2] in ('l:', 'y:'):
             parts = [bytes.fromhex(x) for x in r[2:].split('/')] if r[2:] else []
             got = b''.join(parts)
-            if name != 'readlines':
+            if (r[0] == 'l') != (name == 'readlines') or (r[0] == 'y') != (name == 'iter'):
                 bad.append(('%s returned a list' % op, 'content:' + name))
             else:
                 # every element is a whole line of the rest; without a hint all lines are returned
                 q = rest
                 for p in parts:
                     if not p or p != _line(q):
-                        bad.append(('readlines element %r is not the next line of %r' % (p[:40], q[:40]),
-                                    'content:readlines'))
+                        bad.append(('%s element %r is not the next line of %r' % (name, p[:40], q[:40]),
+                                    'content:' + name))
                         break
                     q = q[len(p):]
                 else:
                     if n is None and q:
-                        bad.append(('readlines() stopped with %d bytes left' % len(q), 'content:readlines_short'))
+                        bad.append(('%s stopped with %d bytes left' % (op, len(q)), 'content:%s_short' % name))
                     if n is not None and q and (len(got) < n or not parts):
                         bad.append(('readlines(%d) returned %d bytes with %d left' % (n, len(got), len(q)),
                                     'content:readlines_hint'))
         else:
             got = bytes.fromhex(r[2:])
-            if name in ('read', 'readfp'):
+            if (r[0] == 'w') != (name in ('readfp', 'rif', 'rifmk')):
+                bad.append(('%s: result %s' % (op, r[:20]), 'content:' + name))
+            elif name in ('read', 'readfp', 'rif', 'rifmk'):
                 if n is None:
                     want = rest
                 elif n == 0:
@@ -315,7 +425,7 @@ def oracle(case, obs):
                 else:
                     want = rest[:n]
                 if want is not None and got != want:
-                    bad.append(('%s returned %d bytes %r..., cursor says %d bytes %r...'
+                    bad.append(('%s delivered %d bytes %r..., cursor says %d bytes %r...'
                                 % (op, len(got), got[:24], len(want), want[:24]), 'content:read'))
             elif name == 'readline':
                 if n is None:
@@ -332,15 +442,15 @@ def oracle(case, obs):
                 if not rest or got != _line(rest):
                     bad.append(('next() returned %r, next line is %r' % (got[:40], _line(rest)[:40]),
                                 'content:next'))
-        # exactly once, in order: whatever was returned must be the next bytes of the body
+        # exactly once, in order: whatever was delivered must be the next bytes of the body
         if avail[pos:pos + len(got)] != got:
-            bad.append(('%s returned %r... which is not the next %d bytes of the body (offset %d: %r...)'
+            bad.append(('%s delivered %r... which is not the next %d bytes of the body (offset %d: %r...)'
                         % (op, got[:24], len(got), pos, avail[pos:pos + 24]), 'order:' + name))
             break
         pos += len(got)
         delivered += len(got)
-        if m is not None and delivered > m:
-            bad.append(('%d bytes delivered with maxbytes=%d' % (delivered, m), 'maxbytes:delivered_over_limit'))
+        if not bound(op):
+            break
     # bounded: never consume (or ask the connection for) more than the declared length
     if c['length'] is not None:
         if obs['off'] > c['length']:
@@ -351,15 +461,15 @@ def oracle(case, obs):
                         % (obs['req_end'], c['length']), 'overread_request'))
     # a longer body read to the end must have been refused
     if not errored and len(obs['outs']) == len(c['ops']):
-        drained = any(o in ('read', 'readfp', 'readlines') for o in c['ops'][-1:])
+        drained = any(o in ('read', 'readfp', 'readlines', 'rif', 'rifmk', 'iter') for o in c['ops'][-1:])
         if drained and pos != len(avail):
             bad.append(('history ends with %s but only %d of %d bytes were delivered'
                         % (c['ops'][-1], pos, len(avail)), 'content:not_exhausted'))
         if m is not None and len(avail) > m and pos == len(avail):
             bad.append(('body of %d bytes fully delivered with maxbytes=%d' % (len(avail), m), 'missing_413'))
     if c.get('via') == 'wsgi':
-        want = 413 if (obs['outs'] and obs['outs'][-1] == 'e413') else 200
-        if obs['outs'] and not _is_ok(obs['outs'][-1]) and obs['outs'][-1] != 'e413':
+        want = 413 if (obs['outs'] and obs['outs'][-1].startswith('e413')) else 200
+        if obs['outs'] and not _is_ok(obs['outs'][-1]) and not obs['outs'][-1].startswith('e413'):
             want = obs['status']
         if obs['status'] != want:
             bad.append(('response status %s, expected %s' % (obs['status'], want), 'status'))
@@ -376,17 +486,20 @@ def _opt(x):
 def model_line(case, nops=None):
     c, body = _norm(case)
     ops = c['ops'] if nops is None else c['ops'][:nops]
-    ops = [o.replace('readfp', 'read') for o in ops]
+    ops = [o.replace('rifmk', 'rif') for o in ops]
     return ' '.join([_opt(c['length']), _opt(c['maxbytes']), str(c['bufsize']), _opt(c['fail_at']),
                      body.hex() or '-', ','.join(map(str, c['frag'])) or '-', ','.join(ops) or '-'])
 
 
 def _canon_model_out(o):
-    if o.startswith('b:'):
-        return 'b:' + ('' if o[2:] == '-' else o[2:])
-    if o.startswith('l:'):
+    if o[:2] in ('b:', 'w:'):
+        return o[:2] + ('' if o[2:] == '-' else o[2:])
+    if o[:2] in ('l:', 'y:'):
         parts = o[2:].split('/') if o[2:] else []
-        return 'l:' + '/'.join('' if p == '-' else p for p in parts)
+        return o[:2] + '/'.join('' if p == '-' else p for p in parts)
+    if '+' in o:
+        st, _, part = o.partition('+')
+        return st + '+' + ('' if part == '-' else part)
     return o
 
 
@@ -440,7 +553,10 @@ def gen_case(rng, big=False):
     if k < 0.5:
         length = n
     elif k < 0.7:
-        length = rng.randrange(0, n) if n else 0
+        # shorter than what the connection holds (the rest is a pipelined following request): boundary values
+        # 0, 1, n-1 as often as something in between
+        length = rng.choice([0, 1, n - 1, rng.randrange(0, n), rng.randrange(0, n)]) if n else 0
+        length = max(0, min(length, n))
     elif k < 0.8:
         length = n + rng.choice([1, 2, 10])
     else:
@@ -474,8 +590,8 @@ def gen_case(rng, big=False):
     ops = []
     for _ in range(nops):
         kind = rng.choices(['read', 'readn', 'readline', 'readlinen', 'readlines', 'readlinesh', 'next', 'readfp',
-                            'zero'],
-                           weights=[3, 22, 20, 24, 2, 8, 14, 4, 1])[0]
+                            'zero', 'rif', 'iter'],
+                           weights=[3, 22, 20, 24, 2, 8, 14, 6, 1, 2, 2])[0]
         if kind == 'read':
             ops.append('read')
         elif kind == 'readn':
@@ -493,11 +609,17 @@ def gen_case(rng, big=False):
         elif kind == 'next':
             ops.append('next')
         elif kind == 'readfp':
-            ops.append(rng.choice(['readfp', 'readfp:%d' % rng.choice(sizes)]))
+            ops.append(rng.choice(['readfp', 'readfp:%d' % rng.choice(sizes), 'readfp:%d' % rng.choice(sizes)]))
+        elif kind == 'rif':
+            ops.append(rng.choice(['rif', 'rif', 'rifmk']))
+        elif kind == 'iter':
+            ops.append('iter')
         else:
             ops.append(rng.choice(['read:0', 'readline:0', 'readlines:0']))
     if rng.random() < 0.6:
-        ops.append(rng.choice(['read', 'read', 'readlines', 'readfp']))
+        # every way of draining the body: into the return value, into a caller's sink, into the default file,
+        # line by line
+        ops.append(rng.choice(['read', 'read', 'readlines', 'readfp', 'rif', 'rifmk', 'iter']))
     via = 'wsgi' if rng.random() < 0.3 else 'direct'
     case = {'body_hex': body.hex(), 'length': length, 'maxbytes': maxbytes, 'bufsize': bufsize, 'frag': frag,
             'fail_at': fail_at, 'ops': ops, 'via': via}
@@ -546,8 +668,7 @@ def check_cases(ctx, cases, compare=True, stats=True):
         model = ctx.model(lines)
     for i, (case, obs) in enumerate(zip(cases, obs_list)):
         c, body = _norm(case)
-        nontrivial = any((o.startswith('b:') and len(o) > 2) or (o.startswith('l:') and len(o) > 2)
-                         for o in obs['outs'])
+        nontrivial = any(o[:2] in ('b:', 'l:', 'w:', 'y:') and len(o) > 2 for o in obs['outs'])
         ctx.case(case, nontrivial=nontrivial, key=case_key(case))
         if stats:
             ctx.count('via:' + c['via'])
@@ -563,7 +684,10 @@ def check_cases(ctx, cases, compare=True, stats=True):
             for op, o in zip(c['ops'], obs['outs']):
                 ctx.count('op:' + _kind(op))
                 ctx.count('result:' + ('data' if o.startswith('b:') and len(o) > 2 else 'empty' if o == 'b:'
-                                       else 'lines' if o.startswith('l:') else o))
+                                       else 'lines' if o.startswith('l:') else 'sink' if o.startswith('w:')
+                                       else 'yielded' if o.startswith('y:')
+                                       else o.split('+')[0] + ('+partial' if '+' in o and not o.endswith('+')
+                                                               else '')))
             if obs.get('status'):
                 ctx.count('status:%s' % obs['status'])
         fails = oracle(case, obs)
